@@ -41,7 +41,8 @@ def layout(text, rng):
     elif r < 0.35:
         text = "// leading comment\n" + text
     elif r < 0.5:
-        text = "/* c1 */ /* multi\nline */ " + text
+        text = rng.choice(["/* c1 */ /* multi\nline */ ", "/* a\n   indented last line */ ", "/*\n\t*/", "/* one\n * two\n     */  ", "/* x\n \t y\n  */",
+                           "// c\n/* m\n        n */ "]) + text
     elif r < 0.6:
         text = "  \t " + text
     if rng.random() < 0.25:
@@ -50,7 +51,7 @@ def layout(text, rng):
             t = toks[rng.randrange(1, len(toks))]
             # line ends of both conventions, alone and in adjacent mixed runs (carriage returns are written as &#13; so
             # that the XML parser does not normalise them away)
-            text = text[:t.pos] + rng.choice(["\n", "\\\n", " /* mid */ ", "\r\n", "\n\n  ", "\n\r\n", "\r\n\n", "\r\n\r\n", "\n\r\n\n",
+            text = text[:t.pos] + rng.choice(["\n", "\\\n", " /* mid */ ", "\r\n", "\n\n  ", " /* mid\n      dle */ ", "/* a\n\t\tb */", "\n\r\n", "\r\n\n", "\r\n\r\n", "\n\r\n\n",
                                               "// c\r\n\n", "\r\n  \r\n"]) + text[t.pos:]
     return text
 
